@@ -66,29 +66,54 @@ def blob (s : String) : Option Bytes :=
   | 'b' :: rest => (String.ofList rest).toNat?.map fun v => [UInt8.ofNat (v % 256)]
   | _ => none
 
+/-- one `open(path, mode)`, its writes and the ending: the model's three tokens and the specification's three steps -/
+def writeOne (mode ex ws ending : String) : Option (String × String) :=
+  let existing : Option (Option Bytes) := if ex == "missing" then some none else (blob ex).map some
+  let writes : Option (List Bytes) := if ws == "-" then some [] else (ws.splitOn ",").mapM blob
+  let e : Option Ending := match ending with
+    | "normal" => some .normal | "flush" => some .flush | "exit" => some .exit | "flushexit" => some .flushExit | _ => none
+  match existing, writes, e with
+  | some existing, some writes, some e =>
+    let fileTok (f : Option Bytes) : String := match f with
+      | none => "file=missing"
+      | some b => if b.isEmpty then "file=-" else tok "file=" b
+    let wTok (ns : List Nat) : String := if ns.isEmpty then "w=-" else "w=" ++ joinWith "." (ns.map toString)
+    let (o, ns, f) := writeRun mode existing writes e
+    let model := joinWith ";" [match o with | .handle => "open=H" | .err _ => "open=E" | .rterr => "open=rterr", wTok ns, fileTok f]
+    let spec := match Spec.FileIo.Mode.ofString mode with
+      | none => "-;-;-"           -- the documents name four modes only
+      | some m =>
+        let (ok, f) := Spec.FileIo.writeSpec m existing writes
+        if ok then joinWith ";" ["open=H", (if m == .r then "-" else wTok (writes.map List.length)), fileTok f]
+        else joinWith ";" ["open=E", "w=-", fileTok f]
+    some (model, spec)
+  | _, _, _ => none
+
 def runWrite (args : List String) : String :=
   match args with
   | [mode, ex, ws, ending] =>
-    let existing : Option (Option Bytes) := if ex == "missing" then some none else (blob ex).map some
-    let writes : Option (List Bytes) := if ws == "-" then some [] else (ws.splitOn ",").mapM blob
-    let e : Option Ending := match ending with
-      | "normal" => some .normal | "flush" => some .flush | "exit" => some .exit | "flushexit" => some .flushExit | _ => none
-    match existing, writes, e with
-    | some existing, some writes, some e =>
-      let fileTok (f : Option Bytes) : String := match f with
-        | none => "file=missing"
-        | some b => if b.isEmpty then "file=-" else tok "file=" b
-      let wTok (ns : List Nat) : String := if ns.isEmpty then "w=-" else "w=" ++ joinWith "." (ns.map toString)
-      let (o, ns, f) := writeRun mode existing writes e
-      let model := joinWith ";" [match o with | .handle => "open=H" | .err _ => "open=E" | .rterr => "open=rterr", wTok ns, fileTok f]
-      let spec := match Spec.FileIo.Mode.ofString mode with
-        | none => "steps -;-;-"           -- the documents name four modes only
-        | some m =>
-          let (ok, f) := Spec.FileIo.writeSpec m existing writes
-          if ok then "steps " ++ joinWith ";" ["open=H", (if m == .r then "-" else wTok (writes.map List.length)), fileTok f]
-          else "steps " ++ joinWith ";" ["open=E", "w=-", fileTok f]
-      result model spec
-    | _, _, _ => "bad-op"
+    match writeOne mode ex ws ending with
+    | some (model, spec) => result model ("steps " ++ spec)
+    | none => "bad-op"
+  | _ => "bad-op"
+
+/-- `fwriten <normal|exit> <mode:existing:writes:flushed>…` — several files open at once in one program (distinct paths:
+the files are independent, so each behaves as if it were alone, whatever the interleaving of the writes); a part
+flagged `1` is flushed explicitly before the program ends -/
+def runWriteN (args : List String) : String :=
+  match args with
+  | ending :: parts =>
+    if ending != "normal" && ending != "exit" then "bad-op" else
+    let one (part : String) : Option (String × String) :=
+      match part.splitOn ":" with
+      | [mode, ex, ws, fl] =>
+        let e := match ending, fl with
+          | "normal", "1" => "flush" | "normal", _ => "normal" | _, "1" => "flushexit" | _, _ => "exit"
+        writeOne mode ex ws e
+      | _ => none
+    match parts.mapM one with
+    | some rs => if rs.isEmpty then "bad-op" else result (joinWith ";" (rs.map (·.1))) ("steps " ++ joinWith ";" (rs.map (·.2)))
+    | none => "bad-op"
   | _ => "bad-op"
 
 end P2sh.Driver.FileDrv
